@@ -167,6 +167,7 @@ func verifyFunc(prog *Prog, sp *FuncSpec) (res *FuncResult) {
 		}
 		top.results = append(top.results, obj)
 	}
+	st.vars[fv.recvObj()] = intT(0)
 	fv.entry = st.clone()
 	// preconditions
 	for _, c := range sp.Requires {
